@@ -145,7 +145,9 @@ func abstractPaa(tok string) string {
 		key  []byte
 	}{{"S", signingKey}, {"O", otherKey}} {
 		m := hmac.New(sha256.New, k.key)
-		m.Write([]byte(seg[0] + "." + seg[1]))
+		// go-jose verifies the MAC over the re-encoded decoded segments, so the unused trailing
+		// bits of a segment's last base64 character do not take part (same term, same verdict)
+		m.Write([]byte(base64.RawURLEncoding.EncodeToString(hb) + "." + base64.RawURLEncoding.EncodeToString(pb)))
 		if hmac.Equal(m.Sum(nil), sb) {
 			return c.term("HS256", k.name)
 		}
